@@ -676,3 +676,200 @@ Proof. vm_compute. reflexivity. Qed.
 Definition ex_reiss2 : reiss2_args := mk_reiss2_args (repeat (b8 9) 32) (Some vec2_hash) 5 1 (ex_addr true) (ex_addr false).
 Example v2_add_in_reissuance_succeeds : fst (v2_add_in_reissuance ex_v2pkt 0 ex_reiss2) = true.
 Proof. vm_compute. reflexivity. Qed.
+
+(* ====================================================================== *)
+(* histories: any sequence of calls on one updater                        *)
+(* ====================================================================== *)
+(* an issuance or reissuance once attached to an input is never replaced or removed by a later
+   call, successful or refused; so the outputs an earlier call added keep the input that issues them *)
+
+(* ---------- psetv2 ---------- *)
+Definition v2_keeps (p p' : v2pkt) : Prop :=
+  forall j x, nth_error (v2_ins p) j = Some x -> vi_entropy x <> None -> nth_error (v2_ins p') j = Some x.
+
+Lemma v2_keeps_refl p : v2_keeps p p.
+Proof. intros j x H _. exact H. Qed.
+Lemma v2_keeps_trans p q r : v2_keeps p q -> v2_keeps q r -> v2_keeps p r.
+Proof. intros A B j x H E. apply B; [apply A; assumption | exact E]. Qed.
+
+Lemma v2_keeps_set k input f p :
+  nth_error (v2_ins p) k = Some input -> vi_entropy input = None ->
+  forall p', v2_ins p' = iss_set_nth k f (v2_ins p) -> v2_keeps p p'.
+Proof.
+  intros Hn He p' E j x Hj Hx. rewrite E.
+  destruct (Nat.eq_dec k j) as [->|NE].
+  - rewrite Hn in Hj. inversion Hj; subst. contradiction.
+  - rewrite nth_error_iss_set_nth_other by exact NE. exact Hj.
+Qed.
+
+Ltac split_result H :=
+  repeat (match type of H with
+          | context [if ?c then _ else _] => destruct c
+          | context [match ?x with _ => _ end] => destruct x
+          end; try discriminate H).
+
+Lemma v2_add_in_issuance_refused p idx a p' : v2_add_in_issuance p idx a = (false, p') -> p' = p.
+Proof.
+  unfold v2_add_in_issuance. cbv zeta. intro H. split_result H; inversion H; reflexivity.
+Qed.
+Lemma v2_add_in_reissuance_refused p idx a p' : v2_add_in_reissuance p idx a = (false, p') -> p' = p.
+Proof.
+  unfold v2_add_in_reissuance. cbv zeta. intro H. split_result H; inversion H; reflexivity.
+Qed.
+
+Lemma v2_add_in_issuance_keeps p idx a : v2_keeps p (snd (v2_add_in_issuance p idx a)).
+Proof.
+  destruct (v2_add_in_issuance p idx a) as [ok p'] eqn:E. cbn [snd]. destruct ok.
+  - destruct (v2_issuance_outputs_pay_derived_ids p idx a p' E) as (input & e & asset & token & H). cbv zeta in H.
+    destruct H as (_ & Hn & He & _ & _ & _ & _ & Hins & _).
+    exact (v2_keeps_set _ input _ p Hn He p' Hins).
+  - apply v2_add_in_issuance_refused in E. subst. apply v2_keeps_refl.
+Qed.
+Lemma v2_add_in_reissuance_keeps p idx a : v2_keeps p (snd (v2_add_in_reissuance p idx a)).
+Proof.
+  destruct (v2_add_in_reissuance p idx a) as [ok p'] eqn:E. cbn [snd]. destruct ok.
+  - destruct (v2_reissuance_outputs_pay_derived_ids p idx a p' E) as (input & eh & asset & token & H). cbv zeta in H.
+    destruct H as (_ & Hn & He & _ & _ & _ & _ & _ & _ & _ & _ & _ & Hins & _).
+    exact (v2_keeps_set _ input _ p Hn He p' Hins).
+  - apply v2_add_in_reissuance_refused in E. subst. apply v2_keeps_refl.
+Qed.
+
+Inductive v2_op := V2Issue (idx : Z) (a : iss_args) | V2Reissue (idx : Z) (a : reiss2_args).
+Definition v2_step (p : v2pkt) (o : v2_op) : v2pkt :=
+  match o with
+  | V2Issue idx a => snd (v2_add_in_issuance p idx a)
+  | V2Reissue idx a => snd (v2_add_in_reissuance p idx a)
+  end.
+
+Theorem v2_history_keeps_issuances ops : forall p, v2_keeps p (fold_left v2_step ops p).
+Proof.
+  induction ops as [|o ops IH]; intro p; cbn [fold_left]; [apply v2_keeps_refl|].
+  apply (v2_keeps_trans p (v2_step p o)); [|apply IH].
+  destruct o; [apply v2_add_in_issuance_keeps | apply v2_add_in_reissuance_keeps].
+Qed.
+
+(* a refused psetv2 call changes nothing at all *)
+Theorem v2_refused_calls_change_nothing p idx :
+  (forall a p', v2_add_in_issuance p idx a = (false, p') -> p' = p) /\
+  (forall a p', v2_add_in_reissuance p idx a = (false, p') -> p' = p).
+Proof. split; intros a p'; [apply v2_add_in_issuance_refused | apply v2_add_in_reissuance_refused]. Qed.
+
+(* ---------- pset v0 ---------- *)
+Definition v0_keeps (p p' : v0pkt) : Prop :=
+  forall j x, nth_error (t_ins (v0_tx p)) j = Some x -> in_iss x <> None -> nth_error (t_ins (v0_tx p')) j = Some x.
+(* len(Inputs) == len(UnsignedTx.Inputs) *)
+Definition v0_inv (p : v0pkt) : Prop := v0_nin p = lenL (t_ins (v0_tx p)).
+
+Lemma v0_keeps_refl p : v0_keeps p p.
+Proof. intros j x H _. exact H. Qed.
+Lemma v0_keeps_trans p q r : v0_keeps p q -> v0_keeps q r -> v0_keeps p r.
+Proof. intros A B j x H E. apply B; [apply A; assumption | exact E]. Qed.
+Lemma v0_keeps_add_output p o : v0_keeps p (v0_add_output p o).
+Proof. intros j x H _. exact H. Qed.
+Lemma v0_keeps_add_input p i : v0_keeps p (v0_add_input p i).
+Proof.
+  intros j x H _. unfold v0_add_input. cbn [v0_tx t_ins]. rewrite nth_error_app1; [exact H|].
+  apply nth_error_Some. rewrite H. discriminate.
+Qed.
+Lemma v0_keeps_set_iss p idx i s :
+  nth_error (t_ins (v0_tx p)) idx = Some i -> in_iss i = None -> v0_keeps p (v0_set_iss p idx s).
+Proof.
+  intros Hn He j x Hj Hx. unfold v0_set_iss. cbn [v0_tx t_ins].
+  destruct (Nat.eq_dec idx j) as [->|NE].
+  - rewrite Hn in Hj. inversion Hj; subst. contradiction.
+  - rewrite nth_error_iss_set_nth_other by exact NE. exact Hj.
+Qed.
+
+Lemma v0_inv_add_output p o : v0_inv p -> v0_inv (v0_add_output p o).
+Proof. intro H. exact H. Qed.
+Lemma v0_inv_set_iss p idx s : v0_inv p -> v0_inv (v0_set_iss p idx s).
+Proof.
+  unfold v0_inv, v0_set_iss, lenL. cbn [v0_tx v0_nin t_ins]. rewrite iss_set_nth_length. intro H; exact H.
+Qed.
+Lemma v0_inv_add_input p i : v0_inv p -> v0_inv (v0_add_input p i).
+Proof.
+  unfold v0_inv, v0_add_input, lenL. cbn [v0_tx v0_nin t_ins]. rewrite app_length. cbn [length]. intro H. rewrite H. lia.
+Qed.
+
+Lemma v0_add_issuance_keeps p a :
+  v0_keeps p (snd (v0_add_issuance p a)) /\ (v0_inv p -> v0_inv (snd (v0_add_issuance p a))).
+Proof.
+  unfold v0_add_issuance.
+  destruct (v0_validate a); cbn [negb snd]; [|split; [apply v0_keeps_refl | auto]].
+  destruct (t_ins (v0_tx p)) as [|i0 rest] eqn:Ins; [split; [apply v0_keeps_refl | auto]|].
+  rewrite <- Ins. clear Ins i0 rest.
+  destruct (new_tx_issuance _ _ _ _) as [iss0|]; [|split; [apply v0_keeps_refl | auto]].
+  destruct (find_empty (t_ins (v0_tx p)) 0) as [[idx i]|] eqn:FE; [|split; [apply v0_keeps_refl | auto]].
+  destruct (generate_entropy iss0 (in_hash i) (in_index i)) as [iss|]; [|split; [apply v0_keeps_refl | auto]].
+  apply find_empty_inv in FE as (_ & Hnth & Hnone). rewrite Nat.sub_0_r in Hnth.
+  cbv zeta.
+  match goal with |- context [v0_set_iss p idx ?s] => set (p1 := v0_set_iss p idx s) end.
+  assert (K1 : v0_keeps p p1) by (apply (v0_keeps_set_iss p idx i); assumption).
+  assert (I1 : v0_inv p -> v0_inv p1) by (apply v0_inv_set_iss).
+  destruct (generate_asset iss) as [asset|]; [|split; assumption].
+  destruct (ad_valid (ia_aaddr a)); cbn [negb]; [|split; assumption].
+  match goal with |- context [if 0 <? ia_asset a then ?x else p1] => set (p2 := if 0 <? ia_asset a then x else p1) end.
+  assert (K2 : v0_keeps p p2 /\ (v0_inv p -> v0_inv p2)).
+  { unfold p2. destruct (0 <? ia_asset a); [|split; assumption].
+    split; [eapply v0_keeps_trans; [exact K1 | apply v0_keeps_add_output] | intro H; apply v0_inv_add_output; auto]. }
+  destruct (0 <? ia_token a); [|exact K2].
+  destruct (generate_token iss _) as [token|]; [|exact K2].
+  destruct (ad_valid (ia_taddr a)); cbn [negb snd]; [|exact K2].
+  destruct K2 as [K2 I2].
+  split; [eapply v0_keeps_trans; [exact K2 | apply v0_keeps_add_output] | intro H; apply v0_inv_add_output; auto].
+Qed.
+
+Lemma v0_add_reissuance_keeps p a :
+  v0_inv p -> v0_keeps p (snd (v0_add_reissuance p a)) /\ v0_inv (snd (v0_add_reissuance p a)).
+Proof.
+  intro Inv. unfold v0_add_reissuance.
+  destruct (v0_reiss_validate a); cbn [negb snd]; [|split; [apply v0_keeps_refl | exact Inv]].
+  destruct (v0_nin p =? 0); [split; [apply v0_keeps_refl | exact Inv]|].
+  cbv zeta. cbn [snd].
+  set (newin := new_tx_input (rev (iss_obytes (rva_hash a))) (rva_index a)).
+  set (p1 := v0_add_input p newin).
+  assert (K1 : v0_keeps p p1) by apply v0_keeps_add_input.
+  assert (I1 : v0_inv p1) by (apply v0_inv_add_input; exact Inv).
+  match goal with |- context [v0_add_output (v0_add_output p1 ?o1) ?o2] => set (p3 := v0_add_output (v0_add_output p1 o1) o2) end.
+  assert (K3 : v0_keeps p p3).
+  { eapply v0_keeps_trans; [exact K1|]. eapply v0_keeps_trans; apply v0_keeps_add_output. }
+  assert (I3 : v0_inv p3) by (apply v0_inv_add_output, v0_inv_add_output; exact I1).
+  assert (Hlast : nth_error (t_ins (v0_tx p3)) (N.to_nat (v0_nin p1 - 1)) = Some newin).
+  { unfold p3, p1, v0_add_output, v0_add_input. cbn [v0_tx v0_nin t_ins].
+    replace (N.to_nat (v0_nin p + 1 - 1)) with (length (t_ins (v0_tx p))) by (rewrite Inv; unfold lenL; lia).
+    rewrite nth_error_app2 by lia. rewrite Nat.sub_diag. reflexivity. }
+  split.
+  - eapply v0_keeps_trans; [exact K3|]. apply (v0_keeps_set_iss p3 _ newin); [exact Hlast | reflexivity].
+  - apply v0_inv_set_iss. exact I3.
+Qed.
+
+Inductive v0_op := V0Issue (a : iss_args) | V0Reissue (a : v0_reiss_args).
+Definition v0_step (p : v0pkt) (o : v0_op) : v0pkt :=
+  match o with
+  | V0Issue a => snd (v0_add_issuance p a)
+  | V0Reissue a => snd (v0_add_reissuance p a)
+  end.
+
+Theorem v0_history_keeps_issuances ops : forall p, v0_inv p ->
+  v0_keeps p (fold_left v0_step ops p) /\ v0_inv (fold_left v0_step ops p).
+Proof.
+  induction ops as [|o ops IH]; intros p Inv; cbn [fold_left]; [split; [apply v0_keeps_refl | exact Inv]|].
+  assert (S : v0_keeps p (v0_step p o) /\ v0_inv (v0_step p o)).
+  { destruct o as [a|a]; cbn [v0_step].
+    - destruct (v0_add_issuance_keeps p a) as [K I]. split; [exact K | apply I; exact Inv].
+    - apply v0_add_reissuance_keeps. exact Inv. }
+  destruct S as [K I]. destruct (IH (v0_step p o) I) as [K' I'].
+  split; [eapply v0_keeps_trans; [exact K | exact K'] | exact I'].
+Qed.
+
+(* in particular: once every input issues, AddIssuance is refused and changes nothing *)
+Theorem v0_add_issuance_needs_a_free_input p a :
+  (forall x, In x (t_ins (v0_tx p)) -> in_iss x <> None) -> v0_add_issuance p a = (false, p).
+Proof.
+  intro All. unfold v0_add_issuance.
+  destruct (v0_validate a); cbn [negb]; [|reflexivity].
+  destruct (t_ins (v0_tx p)) as [|i0 rest] eqn:Ins; [reflexivity|]. rewrite <- Ins. 
+  destruct (new_tx_issuance _ _ _ _); [|reflexivity].
+  destruct (find_empty (t_ins (v0_tx p)) 0) as [[idx fi]|] eqn:FE; [|reflexivity].
+  exfalso. apply find_empty_inv in FE as (_ & Hn & He). apply nth_error_In in Hn. rewrite Ins in Hn. exact (All fi Hn He).
+Qed.
